@@ -89,7 +89,11 @@ func NewFilterFS(fs FS, opt *FilterOpt) (FS, error) {
 		if err != nil {
 			return nil, err
 		}
-		if targets != nil {
+		if targets == nil {
+			// a followed path reaches the root of the FS: everything is
+			// needed, whatever the caller's own patterns select
+			includePatterns = nil
+		} else {
 			// targets come back sorted and de-duplicated; the caller's own
 			// patterns are an ordered list in which later entries override
 			// earlier ones ("!" exceptions), so none of them may be dropped
